@@ -36,7 +36,7 @@ namespace GeographicLib {
     real sig, m;
     sig = _earth.Direct(lat0, lon0, azi0, s, lat, lon, azi, m);
     // For s = 0, sig can be a tiny round-off value instead of 0; also test s
-    rk = !(sig <= eps_) && s > 0 ? m / s : 1;
+    rk = !(sig <= eps_) && !(s <= 0) ? m / s : 1;
   }
 
 } // namespace GeographicLib
